@@ -79,6 +79,7 @@ type c20Case struct {
 	extraTop string // extra top-level declarations in wire.go
 	body     string // full injector body override
 	imports  string
+	params   string // parameter list of the injector (default: none)
 	files    map[string]string // further files of the case (other packages)
 	twice    int // 1: a second injector with the same body; 2: both injectors use one named set holding the arguments
 }
@@ -122,9 +123,9 @@ func c20Render(cs c20Case) map[string]string {
 		extraTop += "var Shared = Q.NewSet(" + cs.build + ")\n"
 		body = "\tpanic(Q.Build(Shared))\n"
 	}
-	w := "//go:build wireinject\n// +build wireinject\n\npackage p\n\nimport (\n\t" + imp + "\n" + extraImp + ")\n\n" + extraTop + "\nfunc Init() " + result + " {\n" + body + "}\n"
+	w := "//go:build wireinject\n// +build wireinject\n\npackage p\n\nimport (\n\t" + imp + "\n" + extraImp + ")\n\n" + extraTop + "\nfunc Init(" + cs.params + ") " + result + " {\n" + body + "}\n"
 	if cs.twice > 0 {
-		w += "\nfunc Init2() " + result + " {\n" + body + "}\n"
+		w += "\nfunc Init2(" + cs.params + ") " + result + " {\n" + body + "}\n"
 	}
 	defs := c20Defs
 	if c20OmitBadSets {
@@ -262,12 +263,25 @@ func c20Cases() []c20Case {
 		}
 		add("ifacevalue/"+v.name, c20Case{result: "I", build: "Q.InterfaceValue(" + args + ")"})
 	}
+	// empty interfaces: everything (including the untyped nil) implements them
+	for _, v := range []struct{ name, a, b, res string }{
+		{"any-nil", "new(AnyT)", "nil", "AnyT"}, {"any-int", "new(AnyT)", "3", "AnyT"}, {"any-impl", "new(AnyT)", "Impl{}", "AnyT"},
+		{"any-nil-ptr", "new(AnyT)", "(*S)(nil)", "AnyT"}, {"anon-any-nil", "new(interface{})", "nil", "interface{}"}, {"anon-any-string", "new(interface{})", "\"s\"", "interface{}"},
+		{"any-paren-nil", "new(AnyT)", "(nil)", "AnyT"},
+	} {
+		add("ifacevalue/"+v.name, c20Case{result: v.res, build: "Q.InterfaceValue(" + v.a + ", " + v.b + ")", extraTop: "type AnyT interface{}\n"})
+	}
 	// 6. injector result kinds, error path forces the zero value expression
 	kinds := []struct{ name, typ, imp string }{
 		{"bool", "bool", ""}, {"int", "int", ""}, {"float", "float64", ""}, {"complex", "complex128", ""}, {"string", "string", ""}, {"named-struct", "S", ""},
 		{"ptr", "*S", ""}, {"slice", "[]S", ""}, {"array", "[2]S", ""}, {"map", "map[string]S", ""}, {"chan", "chan S", ""}, {"func", "func() S", ""},
 		{"iface", "I", ""}, {"any", "interface{}", ""}, {"anon-struct", "struct{ X int }", ""}, {"generic", "G[int]", ""}, {"unsafe-pointer", "unsafe.Pointer", "\"unsafe\""},
 		{"error", "error", ""}, {"uintptr", "uintptr", ""}, {"named-func", "Fn", ""}, {"rune", "rune", ""},
+	}
+	// named types whose names begin with multi-byte upper-case letters (local names are derived from them)
+	for _, u := range []string{"Élan", "ÉCole", "ÉÀ", "Ωmega", "XÉlan"} {
+		add("result-kind/unicode-"+u, c20Case{result: "(" + u + ", error)", build: "ProvU", extraTop: fmt.Sprintf("type %s struct{ X int }\n\nfunc ProvU() (%s, error) { return %s{}, nil }\n", u, u, u)})
+		add("param-kind/unicode-"+u, c20Case{result: "UR", build: "ProvUR", extraTop: fmt.Sprintf("type %s struct{ X int }\n\ntype UR struct{ X int }\n\nfunc ProvUR(u *%s) UR { return UR{u.X} }\n", u, u), params: "*" + u})
 	}
 	for _, k := range kinds {
 		prov := fmt.Sprintf("func ProvK() (%s, error) {\n\tvar z %s\n\treturn z, nil\n}\n", k.typ, k.typ)
@@ -442,7 +456,7 @@ func checkC20(c *h.Check) {
 	c.Coverage["traces_validated_against_impl"] = len(hc) - skipped
 	c.Coverage["outcomes"] = outcomes.summary()
 	c.Coverage["skipped_illtyped"] = skipped
-	c.Coverage["rule"] = "every argument position of wire.Build / NewSet (41 expression forms), wire.Struct and wire.FieldsOf (12-13 first-argument spellings x 13 field-name spellings), wire.Bind (7 x 8 spellings), wire.Value (27 expression forms), wire.InterfaceValue (8), 21 injector result kinds with an error-returning provider (forces the zero-value expression), 9 injector body shapes; each with wire imported plainly, under an alias and with a dot import. Forms that Go's type checker rejects are counted as skipped. package-level wire.ProviderSet variables not initialised by wire.NewSet; objects mentioned twice; ill-formed graphs. Oracle: exit 0 with output written and compiling, or failure with no panic/timeout and at least one diagnostic carrying file:line:column inside the package, and no output; wire check and wire show on the same tree never panic, and when they fail a diagnostic carries a position. Distinct = distinct rendered source."
+	c.Coverage["rule"] = "every argument position of wire.Build / NewSet (41 expression forms), wire.Struct and wire.FieldsOf (12-13 first-argument spellings x 13 field-name spellings), wire.Bind (7 x 8 spellings), wire.Value (27 expression forms), wire.InterfaceValue (15, incl. empty interfaces fed with nil), 21 injector result kinds with an error-returning provider, 5 named types with multi-byte upper-case initials as result and as unnamed parameter (forces the zero-value expression), 9 injector body shapes; each with wire imported plainly, under an alias and with a dot import. Forms that Go's type checker rejects are counted as skipped. package-level wire.ProviderSet variables not initialised by wire.NewSet; objects mentioned twice; ill-formed graphs. Oracle: exit 0 with output written and compiling, or failure with no panic/timeout and at least one diagnostic carrying file:line:column inside the package, and no output; wire check and wire show on the same tree never panic, and when they fail a diagnostic carries a position. Distinct = distinct rendered source."
 	if len(hc) > 0 && len(results) == len(hc) {
 		i := len(hc) / 2
 		c.Samples = append(c.Samples, map[string]interface{}{"case": hc[i].ID, "wire.go": hc[i].Files["wire.go"], "diagnostics": results[i].Root().Diags})
